@@ -141,6 +141,11 @@ func c09AffGen(g *hx.Gen) {
 	fam := affFamily()
 	affIllTyped(g)
 	affExhaustive(g, "ac", 3, fam, []int{0, -1, -3})
+	// positive gap-open values (inside C09's quantifier "every gap-open value", outside C08's
+	// domain): with them a gap run that directly follows a gap run in the other sequence can pay
+	// off in either order, which is the only way to reach the traceback case "left from up"
+	// (for gap-open <= 0 the symmetric "up from left" path always ties and is tested first)
+	affExhaustive(g, "ac", 3, []string{fam[0], fam[2], fam[4], fam[8]}, []int{1, 2})
 	if g.Thorough() {
 		affExhaustive(g, "ac", 4, []string{fam[2], fam[4], fam[5], fam[8]}, []int{0, -2})
 		affExhaustive(g, "acg", 3, []string{fam[1], fam[8]}, []int{-1})
